@@ -181,6 +181,11 @@ def gen_case(rng, want=None):
                 spec["ramp_up_time_period"] = rng.choice([spec["warmup_time_period"], spec["warmup_time_period"] / 2])
         else:
             spec["finite"] = rng.choice([1, 2, 5, 13])
+            if clients > 1 and rng.random() < 0.25:
+                # a source that runs dry (a small corpus) under a long warm-up period with ramp-up: the first clients are done while later ones
+                # still wait for their turn
+                spec["warmup_time_period"] = round(step * rng.choice([20, 100]), 6)
+                spec["ramp_up_time_period"] = rng.choice([spec["warmup_time_period"], spec["warmup_time_period"] / 2])
         # per-client request scripts
         weight_mode = rng.choice(["one", "one", "const", "changing"])
         svc_mode = rng.choice(["const", "const", "bursty", "slow", "zero", "mixed"])
